@@ -232,10 +232,18 @@ RestyleM(m, style) ==
 \* formatComment: a #FASTLY macro keeps its marker (it would stop being a macro)
 Restyle(cs, c) == [i \in DOMAIN cs |-> IF cs[i].sp = "fastly" THEN cs[i] ELSE [cs[i] EXCEPT !.m = RestyleM(@, c.comment_style)]]
 
-\* C15 requirement, as a relation between the comments written and the comments found
+\* C15 requirement, as a relation between the comments written and the comments found: every comment exactly
+\* once, payload unchanged, order kept (as a multiset under the sorting options, which move comments with their
+\* node).  The marker may be what comment_style says or the original one (the property allows the difference,
+\* it does not demand it; the mechanism layer - Restyle - predicts which).
+MarkerOK(i, o, c) == o.body = i.body /\ o.m \in {i.m, RestyleM(i.m, c.comment_style)}
+Bodies(cs) == [j \in DOMAIN cs |-> cs[j].body]
 ReqComments(in, out, c) ==
-  LET want == Restyle(in, c)
-  IN IF c.sort_declaration \/ c.sort_declaration_property THEN Bag(want) = Bag(out) ELSE want = out
+  IF c.sort_declaration \/ c.sort_declaration_property
+  THEN /\ Bag(Bodies(in)) = Bag(Bodies(out))
+       /\ \A j \in DOMAIN out : \E i \in DOMAIN in : MarkerOK(in[i], out[j], c)
+  ELSE /\ Len(in) = Len(out)
+       /\ \A j \in DOMAIN in : MarkerOK(in[j], out[j], c)
 
 (***************************************************************************)
 (* Comment placements: which gaps get a comment, with which marker         *)
@@ -249,9 +257,10 @@ Docs == CASE DocSet = "unit"   -> UnitDocs
           [] DocSet = "sortdocs" -> {d \in MultiDocs(2) : \A i \in DOMAIN d.ds : ~d.ds[i].a.p_blank}
 Eligible(gs) == {i \in DOMAIN gs : (~OnlyDocumented) \/ gs[i].d}
 OneAt(gs, i) ==
-  {[at |-> i, m |-> m, sp |-> "plain"] : m \in Markers}
+  {[at |-> i, m |-> m, sp |-> "plain", body |-> i] : m \in Markers}
   \cup (IF Specials /\ gs[i].c = "lead" /\ gs[i].l = "lead"
-        THEN {[at |-> i, m |-> "#", sp |-> "fastly"], [at |-> i, m |-> "#", sp |-> "ignore"], [at |-> i, m |-> "//", sp |-> "scope"]}
+        THEN {[at |-> i, m |-> "#", sp |-> "fastly", body |-> i], [at |-> i, m |-> "#", sp |-> "ignore", body |-> i],
+              [at |-> i, m |-> "//", sp |-> "scope", body |-> i]}
         ELSE {})
 Placements(d) ==
   LET gs == GapSeq(DocT(d))
